@@ -169,11 +169,13 @@ def r13_2(ctx):
             ctx.ok(construct, f.loc(), dispatched_via="OUTPUT_FORMATS")
     # main loop discipline
     res = Resolver(main.node)
-    dispatch = [n for n in ast.walk(main.node) if isinstance(n, ast.Call) and isinstance(n.func, ast.Name) and n.func.id == "output_function"]
+    # the generator is taken from the table: `fn = OUTPUT_FORMATS[fmt]; fn(...)` or `OUTPUT_FORMATS[fmt](...)`
+    dispatch = [n for n in ast.walk(main.node) if isinstance(n, ast.Call) and isinstance(n.func, (ast.Name, ast.Subscript))
+                and ast.unparse(res.resolve(n.func)).startswith("OUTPUT_FORMATS[")]
     upd = [n for n in ast.walk(main.node) if isinstance(n, ast.Call) and ast.unparse(n.func) == "update_if_changed"]
     construct = "kconfgen.main/output written to a temporary and copied with update_if_changed"
     if not dispatch or not upd:
-        ctx.bad(construct, "dispatch through output_function / update_if_changed not found", main.loc())
+        ctx.bad(construct, "no call of a generator taken from OUTPUT_FORMATS, or no update_if_changed call, in main()", main.loc())
         return
     d, u = dispatch[0], upd[0]
     tmpname = ast.unparse(d.args[1]) if len(d.args) > 1 else ""
@@ -201,10 +203,8 @@ def r13_2(ctx):
         body = getattr(par, "body", [])
         if not (ds in body and us in body and body.index(ds) < body.index(us)):
             msgs.append("update_if_changed does not follow the output function in the same block")
-        if ast.unparse(d.func) != "output_function" or not any(
-                isinstance(a, ast.Assign) and ast.unparse(a.targets[0]) == "output_function" and ast.unparse(a.value).startswith("OUTPUT_FORMATS[")
-                for a in ast.walk(loop)):
-            msgs.append("output_function is not taken from OUTPUT_FORMATS")
+        if not ast.unparse(res.resolve(d.func)).startswith(f"OUTPUT_FORMATS[{ast.unparse(res.resolve(loop.target.elts[0])) if isinstance(loop.target, ast.Tuple) else ''}"):
+            msgs.append("the output function is not taken from OUTPUT_FORMATS by the requested format")
     (ctx.bad(construct, "; ".join(msgs), main.loc(d)) if msgs else ctx.ok(construct, main.loc(d)))
 
 
